@@ -46,6 +46,10 @@ def rpi (s : Stack) : List (Option Nat × Nat) × Bool × Option Nat × Option N
 @[simp] theorem rpi_with_findLog (s : Stack) (x : List (Nat × Nat)) : rpi { s with findLog := x } = rpi s := rfl
 @[simp] theorem rpi_with_findMarks (s : Stack) (x : List (Nat × Nat)) : rpi { s with findMarks := x } = rpi s := rfl
 @[simp] theorem rpi_with_ansLog (s : Stack) (x : List (Nat × Addr × Nat × Nat)) : rpi { s with ansLog := x } = rpi s := rfl
+@[simp] theorem rpi_with_lisLog (s : Stack) (x : List (LId × Bool × SvcKey × Addr)) : rpi { s with lisLog := x } = rpi s := rfl
+@[simp] theorem rpi_logLis (s : Stack) (id : LId) (o : Bool) (k : SvcKey) (a : Addr) : rpi (s.logLis id o k a) = rpi s := rfl
+@[simp] theorem rpi_with_lisDup (s : Stack) (x : Bool) : rpi { s with lisDup := x } = rpi s := rfl
+@[simp] theorem rpi_markDup (s : Stack) (d : Bool) : rpi (s.markDup d) = rpi s := rfl
 @[simp] theorem rpi_logAnswer (s : Stack) (i : Nat) (a : Addr) (d : Nat) : rpi (s.logAnswer i a d) = rpi s := rfl
 @[simp] theorem rpi_markFind (s : Stack) (n : Nat) : rpi (s.markFind n) = rpi s := rfl
 @[simp] theorem rpi_with_offLog (s : Stack) (x : List (Nat × OEv × Nat)) : rpi { s with offLog := x } = rpi s := rfl
@@ -335,13 +339,13 @@ theorem rpi_stepFind (s : Stack) (tid : Tid) (t : TaskSt) (h : tid.1 ≠ .subscr
   rw [foldl_pres rpi _ (fun s p => by frame_cases)]
 
 @[simp] theorem rpi_watchService (s : Stack) (f : Service) (l : Listener) : rpi (s.watchService f l) = rpi s := by
-  unfold watchService; simp only []; rw [rpi_replay]; rfl
+  unfold watchService; simp only []; rw [rpi_markDup, rpi_replay]; rfl
 @[simp] theorem rpi_stopWatchService (s : Stack) (f : Service) (l : Listener) : rpi (s.stopWatchService f l) = rpi s := by
   unfold stopWatchService; simp only []; split
   · simp
   · rw [rpi_replay]; rfl
 @[simp] theorem rpi_watchAllServices (s : Stack) (id : LId) : rpi (s.watchAllServices id) = rpi s := by
-  unfold watchAllServices; rw [rpi_replay]; rfl
+  unfold watchAllServices; rw [rpi_markDup, rpi_replay]; rfl
 @[simp] theorem rpi_stopWatchAllServices (s : Stack) (id : LId) : rpi (s.stopWatchAllServices id) = rpi s := by
   unfold stopWatchAllServices; split
   · simp
